@@ -35,6 +35,7 @@ LEVEL_NOTE = 'Trusted: z3, vf/sym.py, RNG contracts (vf/rngstub.py), the indepen
 TECHNIQUE = 'symbolic execution of the real Generator with RNG contract stubs (all seeds at once); z3 proves per-path well-formedness of the emitted files; SMT proof of even quota spreading for symbolic totals; QF_FP lemma'
 RULE = 'one task per parameter vector (gen), per n (quotas), per divisor (fp lemma); each feasible path is a case; non-trivial = path with a list of length >= 2'
 EXHAUSTIVE = {}
+NSPLIT = 12
 
 
 def BOUNDS(tier):
@@ -65,12 +66,16 @@ def tasks(tier, seed):
         V.append(vec('ha', n1=3, n2=3, pmin=1, pmax=3, uq=5, lq=2, t1=0.5))
         V.append(vec('hr', n1=3, n2=2, pmin=1, pmax=2, uq=4, lq=1, twopl=True, t1=0.5, t2=0.5))
         V.append(vec('hr', n1=2, n2=3, pmin=1, pmax=3, uq=3, twopl=True, t1=0.5, t2=0.0))
-        V.append(vec('sm', n1=3, pmin=1, pmax=2, twopl=True, t1=0.5, t2=0.5))
-        V.append(vec('spa', n1=3, n2=3, n3=2, pmin=1, pmax=2, uq=5, lq=1, luq=4, llq=2, lt=3, twopl=True, t1=0.5, t2=0.5))
+        V.append(vec('sm', n1=3, pmin=1, pmax=1, twopl=True, t1=0.5, t2=0.5))
+        V.append(vec('spa', n1=3, n2=2, n3=2, pmin=1, pmax=1, uq=5, lq=1, luq=4, llq=2, lt=3, twopl=True, t1=0.5, t2=0.5))
         V.append(vec('spa', n1=2, n2=3, n3=3, pmin=1, pmax=3, uq=4, luq=3, twopl=False, t1=0.5))
-        V.append(vec('hr', n1=2, n2=2, pmin=1, pmax=2, uq=2, twopl=True, t1=0.5, t2=0.5, numinst=2))
-    for v in V:
-        out.append({'kind': 'gen', 'v': v})
+        V.append(vec('hr', n1=1, n2=2, pmin=1, pmax=2, uq=2, twopl=True, t1=0.5, t2=0.5, numinst=2))
+    for i, v in enumerate(V):
+        if tier == 'thorough' and i >= 10:
+            for k in range(NSPLIT):        # big vectors: exploration split over the worker processes
+                out.append({'kind': 'gen', 'v': v, 'split': k})
+        else:
+            out.append({'kind': 'gen', 'v': v})
     for n in range(1, (8 if tier == 'quick' else 12) + 1):
         out.append({'kind': 'quotas', 'n': n})
     out.append({'kind': 'plec', 'N': 8 if tier == 'quick' else 12})
@@ -242,7 +247,15 @@ def run_task(task):
             shutil.rmtree(tmp, ignore_errors=True)
 
     E = S.Engine(max_paths=60000, timeout=2400)
-    paths = E.explore(body)
+    if task.get('split') is None:
+        paths = E.explore(body)
+    else:
+        E0 = S.Engine(max_paths=60000, timeout=1200)
+        fr = E0.frontier(body, 8)
+        if E0.stats.get('aborted'):
+            raise RuntimeError('%d paths dropped by an infeasible stub assumption' % E0.stats['aborted'])
+        mine = [p for i, p in enumerate(fr) if i % NSPLIT == task['split']]
+        paths = E.explore(body, prefixes=mine) if mine else []
     res['paths'] = len(paths)
     if E.stats.get('aborted'):
         raise RuntimeError('%d paths dropped by an infeasible stub assumption' % E.stats['aborted'])
